@@ -645,3 +645,559 @@ Qed.
 Theorem unfilled_thm tp ds de fill ps : pieces ds de fill tp = Ok ps ->
   existsb (fun ch => mem_char ch special_chars) (text_of ps) = true -> render_dt tp ds de fill = Error EUnfilled.
 Proof. intros Hp H. unfold render_dt. rewrite Hp. cbn [bind]. rewrite H. reflexivity. Qed.
+
+(* ================================================================== the rejection clause: parse_sound *)
+
+Lemma strip_sound l s r : strip l s = Some r -> s = l ++ r.
+Proof.
+  revert s. induction l as [|a l IH]; intros s H; cbn [strip] in H; [injection H as ->; reflexivity|].
+  destruct s as [|b s]; [discriminate|]. destruct (Ascii.eqb a b) eqn:E; [|discriminate].
+  apply Ascii.eqb_eq in E. subst b. cbn [app]. f_equal. apply IH. exact H.
+Qed.
+
+Lemma take_digits_sound n s d r : take_digits n s = Some (d, r) ->
+  s = d ++ r /\ List.length d = n /\ forallb is_digit d = true.
+Proof.
+  revert s d r. induction n as [|n IH]; intros s d r H; cbn [take_digits] in H.
+  - injection H as <- <-. repeat split.
+  - destruct s as [|a s]; [discriminate|]. destruct (is_digit a) eqn:Ea; [|discriminate].
+    destruct (take_digits n s) as [[d' r']|] eqn:Et; [|discriminate]. injection H as <- <-.
+    destruct (IH s d' r' Et) as (-> & Hl & Hd). cbn [app List.length forallb]. rewrite Ea, Hd, Hl. repeat split.
+Qed.
+
+Lemma lazy_sound {B} (k : str -> option B) s : forall acc v b, lazy k acc s = Some (v, b) ->
+  exists m r, v = acc ++ m /\ s = m ++ r /\ k r = Some b /\ no_nl m = true.
+Proof.
+  induction s as [|a s IH]; intros acc v b H; cbn [lazy] in H.
+  - destruct (k []) as [b'|] eqn:Ek; [|discriminate]. injection H as <- <-.
+    exists [], []. rewrite app_nil_r. repeat split. exact Ek.
+  - destruct (k (a :: s)) as [b'|] eqn:Ek.
+    + injection H as <- <-. exists [], (a :: s). rewrite app_nil_r. repeat split. exact Ek.
+    + destruct (is_nl a) eqn:Ea; [discriminate|].
+      destruct (IH _ _ _ H) as (m & r & -> & -> & Hk & Hm).
+      exists (a :: m), r. rewrite <- app_assoc. cbn [app]. repeat split; [exact Hk|].
+      unfold no_nl in *. cbn [forallb]. rewrite Ea, Hm. reflexivity.
+Qed.
+
+Lemma alts_sound {B} (k : str -> option B) s : forall vs v b, alts k vs s = Some (v, b) ->
+  existsb (str_eqb v) vs = true /\ exists r, s = v ++ r /\ k r = Some b.
+Proof.
+  induction vs as [|w vs IH]; intros v b H; cbn [alts] in H; [discriminate|].
+  assert (Hrec : alts k vs s = Some (v, b) ->
+                 existsb (str_eqb v) (w :: vs) = true /\ exists r, s = v ++ r /\ k r = Some b).
+  { intros H'. destruct (IH _ _ H') as [H1 H2]. split; [|exact H2]. cbn [existsb]. rewrite H1. apply orb_true_r. }
+  destruct (strip w s) as [r|] eqn:Es; [|auto].
+  destruct (k r) as [b'|] eqn:Ek; [|auto]. injection H as <- <-.
+  split; [cbn [existsb]; rewrite (proj2 (str_eqb_eq w w) eq_refl); reflexivity|].
+  exists r. split; [apply strip_sound; exact Es|exact Ek].
+Qed.
+
+Lemma bindk_some {B} k (r : option (str * list (key * B))) f x :
+  bindk k r f = Some x -> exists v b, r = Some (v, b) /\ x = (k, f v) :: b.
+Proof. destruct r as [[v b]|]; cbn [bindk]; [|discriminate]. intros [= <-]. eauto. Qed.
+
+Lemma instance_cons_lit l tp b n : is_instance tp b n -> is_instance (Lit l :: tp) b (l ++ n).
+Proof.
+  intros (ws & n0 & Ha & Hn). exists ws, (l ++ n0). cbn [assemble]. rewrite Ha. split; [reflexivity|].
+  destruct Hn as [->| ->]; [left; reflexivity|right; rewrite app_assoc; reflexivity].
+Qed.
+
+Lemma instance_cons_ph t tp k v b n : key_of t = Some k -> in_lang t v = true ->
+  is_instance tp b n -> is_instance (t :: tp) ((k, v) :: b) (v ++ n).
+Proof.
+  intros Hk Hl (ws & n0 & Ha & Hn). exists ws, (v ++ n0).
+  assert (E : assemble (t :: tp) ((k, v) :: b) ws = Some (v ++ n0)).
+  { destruct t as [l|e f|name kk|]; try discriminate; cbn [assemble]; cbn [key_of] in *; injection Hk as <-;
+      rewrite key_eqb_refl, Hl, Ha; reflexivity. }
+  split; [exact E|]. destruct Hn as [->| ->]; [left; reflexivity|right; rewrite app_assoc; reflexivity].
+Qed.
+
+Lemma instance_cons_star tp b w n : no_nl w = true -> is_instance tp b n -> is_instance (Star :: tp) b (w ++ n).
+Proof.
+  intros Hw (ws & n0 & Ha & Hn). exists (w :: ws), (w ++ n0). cbn [assemble]. rewrite Hw, Ha. split; [reflexivity|].
+  destruct Hn as [->| ->]; [left; reflexivity|right; rewrite app_assoc; reflexivity].
+Qed.
+
+Theorem matcher_sound tp : forall n b, matcher tp n = Some b -> is_instance tp b n.
+Proof.
+  induction tp as [|t tp IH]; intros n b H.
+  - cbn [matcher] in H. destruct n as [|a [|a' n]]; try discriminate.
+    + injection H as <-. exists [], []. split; [reflexivity|left; reflexivity].
+    + destruct (is_nl a) eqn:Ea; [|discriminate]. injection H as <-. apply Ascii.eqb_eq in Ea. subst a.
+      exists [], []. split; [reflexivity|right; reflexivity].
+  - destruct t as [l|e f|name [[|vs|w]|]|]; cbn [matcher] in H.
+    + destruct (strip l n) as [r|] eqn:Es; [|discriminate]. rewrite (strip_sound _ _ _ Es).
+      apply instance_cons_lit. apply IH. exact H.
+    + destruct (take_digits (width f) n) as [[d r]|] eqn:Et; [|discriminate].
+      destruct (take_digits_sound _ _ _ _ Et) as (-> & Hl & Hd).
+      apply bindk_some in H. destruct H as (v & b' & Hm & ->).
+      destruct (matcher tp r) as [b''|] eqn:Em; [|discriminate]. cbn [option_map] in Hm. injection Hm as <- <-.
+      apply instance_cons_ph; [reflexivity| |apply IH; exact Em].
+      cbn [in_lang]. rewrite Hl, Nat.eqb_refl, Hd. reflexivity.
+    + destruct n as [|a s]; [discriminate|]. destruct (is_nl a) eqn:Ea; [discriminate|].
+      apply bindk_some in H. destruct H as (v & b' & Hm & ->).
+      destruct (lazy_sound _ _ _ _ _ Hm) as (m & r & -> & -> & Hk & Hnl).
+      change (a :: m ++ r) with (([a] ++ m) ++ r).
+      apply instance_cons_ph; [reflexivity| |apply IH; exact Hk].
+      cbn [in_lang app]. unfold no_nl in *. cbn [forallb negb]. rewrite Ea, Hnl. reflexivity.
+    + apply bindk_some in H. destruct H as (v & b' & Hm & ->).
+      destruct (alts_sound _ _ _ _ _ Hm) as (Hin & r & -> & Hk).
+      apply instance_cons_ph; [reflexivity|exact Hin|apply IH; exact Hk].
+    + destruct (take_digits w n) as [[d r]|] eqn:Et; [|discriminate].
+      destruct (take_digits_sound _ _ _ _ Et) as (-> & Hl & Hd).
+      apply bindk_some in H. destruct H as (v & b' & Hm & ->).
+      destruct (matcher tp r) as [b''|] eqn:Em; [|discriminate]. cbn [option_map] in Hm. injection Hm as <- <-.
+      apply instance_cons_ph; [reflexivity| |apply IH; exact Em].
+      cbn [in_lang]. rewrite Hl, Nat.eqb_refl, Hd. reflexivity.
+    + discriminate.
+    + destruct (lazy (matcher tp) [] n) as [[v b']|] eqn:El; [|discriminate]. cbn [option_map snd] in H. injection H as <-.
+      destruct (lazy_sound _ _ _ _ _ El) as (m & r & -> & -> & Hk & Hnl). cbn [app].
+      apply instance_cons_star; [exact Hnl|apply IH; exact Hk].
+Qed.
+
+Theorem parse_sound_thm tp n d : parse tp n = Ok d ->
+  exists b, d = first_only b /\ is_instance tp b n.
+Proof.
+  unfold parse. destruct (existsb unknown_tok tp); [discriminate|].
+  destruct (matcher tp n) as [b|] eqn:Em; [|discriminate]. intros [= <-].
+  exists b. split; [reflexivity|apply matcher_sound; exact Em].
+Qed.
+
+(* a name that is no is_instance of the template is rejected *)
+Theorem non_instance_rejected_thm c tp n : existsb unknown_tok tp = false ->
+  (forall b, ~ is_instance tp b n) ->
+  parse tp n = Error ENoMatch /\ (info_via c <> ViaHandler -> info c tp n = Error ENoMatch).
+Proof.
+  intros Hu Hno. apply no_match_rejected_thm; [exact Hu|].
+  destruct (matcher tp n) as [b|] eqn:Em; [|reflexivity]. exfalso. apply (Hno b). apply matcher_sound. exact Em.
+Qed.
+
+(* ---------- completeness: every is_instance is accepted *)
+Lemma lazy_complete {B} (k : str -> option B) r : k r <> None ->
+  forall m acc, no_nl m = true -> lazy k acc (m ++ r) <> None.
+Proof.
+  intros Hk. induction m as [|a m IH]; intros acc Hm.
+  - cbn [app]. destruct r; cbn [lazy]; destruct (k _); congruence.
+  - cbn [app lazy]. destruct (k (a :: m ++ r)); [discriminate|].
+    unfold no_nl in Hm. cbn [forallb] in Hm. apply andb_true_iff in Hm. destruct Hm as [Ha Hm].
+    apply negb_true_iff in Ha. rewrite Ha. apply IH. exact Hm.
+Qed.
+
+Lemma alts_complete {B} (k : str -> option B) v r : k r <> None ->
+  forall vs, existsb (str_eqb v) vs = true -> alts k vs (v ++ r) <> None.
+Proof.
+  intros Hk. induction vs as [|w vs IH]; intros Hin; [discriminate|].
+  cbn [existsb] in Hin. cbn [alts].
+  destruct (str_eqb v w) eqn:E.
+  - apply str_eqb_eq in E. subst w. rewrite strip_app. destruct (k r); [discriminate|congruence].
+  - cbn [orb] in Hin. specialize (IH Hin).
+    destruct (strip w (v ++ r)) as [r'|]; [|exact IH]. destruct (k r'); [discriminate|exact IH].
+Qed.
+
+Lemma bindk_not_none {B} k (r : option (str * list (key * B))) f : r <> None -> bindk k r f <> None.
+Proof. destruct r as [[v b]|]; cbn [bindk]; congruence. Qed.
+
+Theorem matcher_complete tp : forall b ws n0 x, assemble tp b ws = Some n0 -> x = [] \/ x = [nl] ->
+  matcher tp (n0 ++ x) <> None.
+Proof.
+  induction tp as [|t tp IH]; intros b ws n0 x Ha Hx.
+  - cbn [assemble] in Ha. destruct b; [|discriminate]. destruct ws; [|discriminate]. injection Ha as <-.
+    destruct Hx as [->| ->]; cbn; discriminate.
+  - destruct t as [l|e f|name kk|].
+    + cbn [assemble] in Ha. destruct (assemble tp b ws) as [n1|] eqn:E; [|discriminate]. injection Ha as <-.
+      cbn [matcher]. rewrite <- app_assoc, strip_app. eapply IH; eauto.
+    + cbn [assemble] in Ha. destruct b as [|[k v] b']; [discriminate|].
+      destruct (_ && _) eqn:Ec; [|discriminate]. apply andb_true_iff in Ec. destruct Ec as [_ Hl].
+      destruct (assemble tp b' ws) as [n1|] eqn:E; [|discriminate]. injection Ha as <-.
+      cbn [in_lang] in Hl. apply andb_true_iff in Hl. destruct Hl as [Hlen Hd]. apply Nat.eqb_eq in Hlen.
+      cbn [matcher]. rewrite <- app_assoc, <- Hlen, take_digits_app by exact Hd.
+      apply bindk_not_none. specialize (IH b' ws n1 x E Hx). destruct (matcher tp (n1 ++ x)); [discriminate|congruence].
+    + cbn [assemble] in Ha. destruct b as [|[k v] b']; [discriminate|].
+      destruct (_ && _) eqn:Ec; [|discriminate]. apply andb_true_iff in Ec. destruct Ec as [_ Hl].
+      destruct (assemble tp b' ws) as [n1|] eqn:E; [|discriminate]. injection Ha as <-.
+      specialize (IH b' ws n1 x E Hx). rewrite <- app_assoc.
+      destruct kk as [[|vs|w]|]; cbn [in_lang] in Hl; [| | |discriminate].
+      * apply andb_true_iff in Hl. destruct Hl as [Hne Hnl]. destruct v as [|a m]; [discriminate|].
+        unfold no_nl in Hnl. cbn [forallb] in Hnl. apply andb_true_iff in Hnl. destruct Hnl as [Ha' Hm].
+        apply negb_true_iff in Ha'. cbn [matcher app]. rewrite Ha'. apply bindk_not_none.
+        apply lazy_complete; assumption.
+      * cbn [matcher]. apply bindk_not_none. apply alts_complete; assumption.
+      * apply andb_true_iff in Hl. destruct Hl as [Hlen Hd]. apply Nat.eqb_eq in Hlen.
+        cbn [matcher]. rewrite <- Hlen, take_digits_app by exact Hd.
+        apply bindk_not_none. destruct (matcher tp (n1 ++ x)); [discriminate|congruence].
+    + cbn [assemble] in Ha. destruct ws as [|w ws']; [discriminate|]. destruct (no_nl w) eqn:Hw; [|discriminate].
+      destruct (assemble tp b ws') as [n1|] eqn:E; [|discriminate]. injection Ha as <-.
+      cbn [matcher]. rewrite <- app_assoc.
+      pose proof (lazy_complete (matcher tp) (n1 ++ x) (IH b ws' n1 x E Hx) w [] Hw) as L.
+      destruct (lazy (matcher tp) [] (w ++ n1 ++ x)); [discriminate|congruence].
+Qed.
+
+Theorem parse_complete_thm tp b n : existsb unknown_tok tp = false -> is_instance tp b n ->
+  exists d, parse tp n = Ok d.
+Proof.
+  intros Hu (ws & n0 & Ha & Hn). unfold parse. rewrite Hu.
+  assert (Hm : matcher tp n <> None).
+  { destruct Hn as [->| ->]; [rewrite <- (app_nil_r n0)|]; eapply matcher_complete; eauto. }
+  destruct (matcher tp n) as [b'|]; [eauto|congruence].
+Qed.
+
+(* ================================================================== the sub-day end kind *)
+
+(* ---------- calendar: time of day *)
+Lemma fields_tod t :
+  let r := t mod us_day in
+  hour (fields t) = r / us_hour /\ minute (fields t) = (r / us_minute) mod 60 /\
+  second (fields t) = (r / us_second) mod 60 /\ micro (fields t) = r mod us_second.
+Proof. unfold fields. destruct (civil_from_days (t / us_day)) as [[y m] d]. cbn. repeat split. Qed.
+
+Lemma mk_same_day s h mi se us : valid s -> valid_todb h mi se us = true ->
+  mk (year (fields s)) (month (fields s)) (day (fields s)) h mi se us = Some (s / us_day * us_day + tod_us h mi se us).
+Proof.
+  intros V Ht. pose proof (valid_day s V) as Hd. pose proof (civil_roundtrip _ Hd) as RT.
+  unfold fields. destruct (civil_from_days (s / us_day)) as [[y m] d]. destruct RT as [RT Vd].
+  cbn [year month day]. unfold mk. apply valid_dateb_iff in Vd. rewrite Vd, Ht, RT. reflexivity.
+Qed.
+
+Lemma roll_exact u s e : 0 < u -> 0 <= e - s < u -> roll u s (s / u * u + e mod u) = e.
+Proof.
+  intros Hu H. unfold roll.
+  pose proof (Z.div_mod s u ltac:(lia)) as Es. pose proof (Z.div_mod e u ltac:(lia)) as Ee.
+  pose proof (Z.mod_pos_bound s u Hu) as Bs. pose proof (Z.mod_pos_bound e u Hu) as Be.
+  set (qs := s / u) in *. set (qe := e / u) in *. set (rs := s mod u) in *. set (re := e mod u) in *.
+  assert (Hq : qe = qs \/ qe = qs + 1) by nia.
+  destruct (qs * u + re <? s) eqn:E; nia.
+Qed.
+
+(* ---------- the sub-day end kind *)
+Lemma has_cons f g fs : has f (g :: fs) = tfield_eqb f g || has f fs.
+Proof. reflexivity. Qed.
+
+Lemma subday_has fs f : forallb subday fs = true -> has f fs = true -> subday f = true.
+Proof.
+  intros H Hf. unfold has in Hf. apply existsb_exists in Hf. destruct Hf as (g & Hin & Hg).
+  apply tfield_eqb_eq in Hg. subst g. rewrite forallb_forall in H. apply H. exact Hin.
+Qed.
+
+Lemma subday_hasnt fs f : forallb subday fs = true -> subday f = false -> has f fs = false.
+Proof. intros H Hf. destruct (has f fs) eqn:E; [|reflexivity]. rewrite (subday_has fs f H E) in Hf. discriminate. Qed.
+
+Lemma min_index_subday fs : forallb subday fs = true ->
+  min_index fs = if has FHour fs then Some 3%nat else if has FMinute fs then Some 4%nat
+                 else if has FSecond fs then Some 5%nat else if has FMilli fs then Some 8%nat else None.
+Proof.
+  induction fs as [|f fs IH]; intros H; [reflexivity|].
+  cbn [forallb] in H. apply andb_true_iff in H. destruct H as [Hf H]. specialize (IH H).
+  cbn [min_index]. rewrite IH. rewrite !has_cons.
+  destruct f; try discriminate; cbn [res_index tfield_eqb orb];
+    destruct (has FHour fs), (has FMinute fs), (has FSecond fs), (has FMilli fs); reflexivity.
+Qed.
+
+Lemma end_partial_spec tp : end_partial tp = true ->
+  forallb subday (end_fields tp) = true /\
+  (has FHour (end_fields tp) || has FMinute (end_fields tp) || has FSecond (end_fields tp)) = true.
+Proof.
+  unfold end_partial. intros H. apply andb_true_iff in H. destruct H as [H H3].
+  apply andb_true_iff in H. destruct H as [H1 H2]. split; assumption.
+Qed.
+
+Lemma superior_partial tp : end_partial tp = true -> superior tp = Some (unit_above tp).
+Proof.
+  intros H. destruct (end_partial_spec tp H) as [Hsub Hc]. unfold superior, unit_above.
+  rewrite (min_index_subday _ Hsub).
+  destruct (has FHour (end_fields tp)); [reflexivity|]. destruct (has FMinute (end_fields tp)); [reflexivity|].
+  destruct (has FSecond (end_fields tp)); [reflexivity|discriminate].
+Qed.
+
+Lemma no_parse_only_partial tp : end_partial tp = true -> no_parse_only (end_fields tp) = true.
+Proof.
+  intros H. destruct (end_partial_spec tp H) as [Hsub _]. unfold no_parse_only.
+  rewrite !(subday_hasnt _ _ Hsub) by reflexivity. reflexivity.
+Qed.
+
+(* _standardise_datetime_args on the end fields: only hour/minute/second/microsecond *)
+Lemma standardise_partial fs d : forallb subday fs = true ->
+  standardise (A fs d) = Ok (DA None None None (opt fs FHour d) (opt fs FMinute d) (opt fs FSecond d) (std_micro fs d)).
+Proof.
+  intros Hsub. unfold standardise, A, opt, std_micro.
+  rewrite (subday_hasnt _ FYear2 Hsub), (subday_hasnt _ FYear Hsub), (subday_hasnt _ FMonth Hsub),
+    (subday_hasnt _ FDay Hsub), (subday_hasnt _ FDoy Hsub), (subday_hasnt _ FDeci Hsub),
+    (subday_hasnt _ FCenti Hsub), (subday_hasnt _ FMicro Hsub) by reflexivity.
+  cbn [is_some orb oz aval fval].
+  destruct (has FMilli fs); cbn [is_some oz]; [|reflexivity]. cbn [orb]. do 3 f_equal. lia.
+Qed.
+
+(* datetime of the start arguments overridden by the end arguments *)
+Lemma mk_args_partial tp ds de : at_resolution (start_fields tp) ds = true ->
+  mk_args (da_override (SA tp ds)
+             (DA None None None (opt (end_fields tp) FHour de) (opt (end_fields tp) FMinute de)
+                 (opt (end_fields tp) FSecond de) (std_micro (end_fields tp) de)))
+  = match complete tp ds de with Some r => Ok r | None => Error EValue end.
+Proof.
+  intros Hres. unfold mk_args, da_override, SA, complete.
+  cbn [d_year d_month d_day d_hour d_minute d_second d_micro orelse].
+  unfold at_resolution in Hres. unfold opt, std_micro. cbn [fval].
+  set (sf := start_fields tp) in *. set (ef := end_fields tp) in *.
+  replace (oz (orelse (if has FHour ef then Some (hour de) else None) (if has FHour sf then Some (hour ds) else None)))
+    with (if has FHour ef then hour de else hour ds)
+    by (destruct (has FHour ef), (has FHour sf); cbn [oz orelse] in *; lia).
+  replace (oz (orelse (if has FMinute ef then Some (minute de) else None) (if has FMinute sf then Some (minute ds) else None)))
+    with (if has FMinute ef then minute de else minute ds)
+    by (destruct (has FMinute ef), (has FMinute sf); cbn [oz orelse] in *; lia).
+  replace (oz (orelse (if has FSecond ef then Some (second de) else None) (if has FSecond sf then Some (second ds) else None)))
+    with (if has FSecond ef then second de else second ds)
+    by (destruct (has FSecond ef), (has FSecond sf); cbn [oz orelse] in *; lia).
+  replace (oz (orelse (if has FMilli ef then Some (1000 * (micro de / 1000)) else None)
+                      (if has FMilli sf then Some (1000 * (micro ds / 1000)) else None)))
+    with (if has FMilli ef then micro de / 1000 * 1000 else micro ds)
+    by (destruct (has FMilli ef), (has FMilli sf); cbn [oz orelse] in *; lia).
+  reflexivity.
+Qed.
+
+(* the completed end always exists *)
+Lemma complete_some tp s e : valid s -> valid e ->
+  exists r, complete tp (fields s) (fields e) = Some r /\ valid r.
+Proof.
+  intros Vs Ve. pose proof (fields_range s Vs) as Rs. pose proof (fields_range e Ve) as Re. cbv zeta in Rs, Re.
+  unfold complete. rewrite mk_same_day; [eexists; split; [reflexivity|]|exact Vs|].
+  - set (h := if has FHour _ then _ else _). set (mi := if has FMinute _ then _ else _).
+    set (se := if has FSecond _ then _ else _). set (us := if has FMilli _ then _ else _).
+    assert (Hh : 0 <= h < 24) by (unfold h; destruct (has FHour _); lia).
+    assert (Hmi : 0 <= mi < 60) by (unfold mi; destruct (has FMinute _); lia).
+    assert (Hse : 0 <= se < 60) by (unfold se; destruct (has FSecond _); lia).
+    assert (Hus : 0 <= us < 1000000) by (unfold us; destruct (has FMilli _); lia).
+    unfold valid, dt_max, tod_us, us_day, us_second in *. lia.
+  - unfold valid_todb, us_second. destruct (has FHour _), (has FMinute _), (has FSecond _), (has FMilli _); lia.
+Qed.
+
+Lemma retrieve_partial tp s e fill ps r : start_ok tp s -> valid e -> 1000 <= year (fields e) ->
+  end_partial tp = true -> complete tp (fields s) (fields e) = Some r ->
+  deterministic fill tp = true -> pieces (fields s) (fields e) fill tp = Ok ps ->
+  retrieve tp (first_only (binds_of ps)) =
+  match add r (if r <? s then unit_above tp else 0) with
+  | Some x => Ok (Some s, Some x) | None => Error EOverflow end.
+Proof.
+  intros Hs Ve Hye Hpart Hc Hdet Hp. pose proof Hs as (Vs & _ & _ & Hres & _).
+  rewrite (retrieve_rendered tp s e fill ps Hs Ve Hye (no_parse_only_partial tp Hpart) Hdet Hp).
+  destruct (end_partial_spec tp Hpart) as [Hsub Hco].
+  rewrite (standardise_partial _ _ Hsub). cbn [bind].
+  replace (da_nonempty _) with true.
+  2:{ unfold da_nonempty, opt. cbn [d_year d_month d_day d_hour d_minute d_second d_micro is_some orb].
+      destruct (has FHour (end_fields tp)), (has FMinute (end_fields tp)), (has FSecond (end_fields tp));
+        try discriminate; cbn [is_some orb]; rewrite ?orb_true_r; reflexivity. }
+  rewrite (mk_args_partial tp _ _ Hres), Hc. cbn [bind].
+  rewrite (superior_partial tp Hpart).
+  destruct (r <? s) eqn:E; [reflexivity|].
+  destruct (complete_some tp s e Vs Ve) as (r' & Hc' & Vr). rewrite Hc in Hc'. injection Hc' as <-.
+  unfold add. rewrite Z.add_0_r. apply validb_iff in Vr. rewrite Vr. reflexivity.
+Qed.
+
+Theorem roundtrip_end_partial_thm c tp s e fill n :
+  start_ok tp s -> valid e -> 1000 <= year (fields e) -> end_partial tp = true ->
+  deterministic fill tp = true -> info_via c = ViaFilename -> render tp s e fill = Ok n ->
+  exists r attrs, complete tp (fields s) (fields e) = Some r /\ attrs_are fill tp attrs /\
+    info c tp n = if validb (roll (unit_above tp) s r) then Ok (s, roll (unit_above tp) s r, attrs)
+                  else Error EOverflow.
+Proof.
+  intros Hs Ve Hye Hpart Hdet Hv Hr. pose proof Hs as (Vs & _ & Hrg & _).
+  destruct (parse_render_thm tp s e fill n Vs Ve (in_range_1000 _ _ Hrg) Hye Hdet Hr) as (ps & Hp & -> & Hparse).
+  destruct (complete_some tp s e Vs Ve) as (r & Hc & Vr).
+  exists r, (user_attrs (first_only (binds_of ps))). split; [exact Hc|]. split; [apply (attrs_rendered _ _ _ _ _ Hdet Hp)|].
+  pose proof (retrieve_partial tp s e fill ps r Hs Ve Hye Hpart Hc Hdet Hp) as Hret.
+  unfold info. rewrite Hv, Hparse. cbn [bind]. rewrite Hret. unfold add, roll.
+  destruct (r <? s); [|rewrite Z.add_0_r]; destruct (validb _); reflexivity.
+Qed.
+
+(* ---------- the exact class: the completed and rolled end is e itself *)
+Lemma tod_split t : valid t ->
+  let f := fields t in
+  t mod us_day = tod_us (hour f) (minute f) (second f) (micro f) /\
+  t / us_day * us_day + hour f * us_hour = t / us_hour * us_hour /\
+  (minute f * 60 + second f) * us_second + micro f = t mod us_hour /\
+  t / us_hour * us_hour + minute f * us_minute = t / us_minute * us_minute /\
+  second f * us_second + micro f = t mod us_minute.
+Proof.
+  intros V f. destruct (fields_tod t) as (Hh & Hm & Hs & Hu). fold f in Hh, Hm, Hs, Hu. cbv zeta in *.
+  rewrite Hh, Hm, Hs, Hu. unfold valid, dt_max, tod_us, us_day, us_hour, us_minute, us_second in *.
+  repeat split; lia.
+Qed.
+
+Lemma pick_end (eb sb : bool) (xe xs : Z) :
+  (negb sb || eb) && (eb || (xe =? 0)) = true -> sb || (xs =? 0) = true -> (if eb then xe else xs) = xe.
+Proof. destruct eb, sb; cbn [negb orb andb]; intros H1 H2; try discriminate; try reflexivity. lia. Qed.
+
+Lemma pick_end_micro (eb sb : bool) (ue us : Z) :
+  (negb sb || eb) && (eb || (ue / 1000 =? 0)) = true ->
+  (if sb then us mod 1000 =? 0 else us =? 0) = true -> (ue mod 1000 =? 0) = true ->
+  (if eb then ue / 1000 * 1000 else us) = ue.
+Proof.
+  intros H1 H2 H3. apply Z.eqb_eq in H3. pose proof (Z.div_mod ue 1000 ltac:(lia)) as D.
+  destruct eb, sb; cbn [negb orb andb] in H1; try discriminate; [lia|lia|].
+  apply Z.eqb_eq in H1, H2. lia.
+Qed.
+
+Lemma complete_exact tp s e : start_ok tp s -> valid e -> end_partial tp = true ->
+  end_exact tp (fields e) = true ->
+  complete tp (fields s) (fields e) = Some (s / unit_above tp * unit_above tp + e mod unit_above tp).
+Proof.
+  intros (Vs & _ & _ & Hres & _) Ve Hpart Hex.
+  destruct (end_partial_spec tp Hpart) as [_ Hco].
+  pose proof (fields_range s Vs) as Rs. pose proof (fields_range e Ve) as Re. cbv zeta in Rs, Re.
+  destruct Rs as (_ & Rs1 & Rs2 & Rs3 & Rs4). destruct Re as (_ & Re1 & Re2 & Re3 & Re4).
+  destruct (tod_split s Vs) as (S1 & S2 & S3 & S4 & S5). destruct (tod_split e Ve) as (E1 & E2 & E3 & E4 & E5).
+  cbv zeta in *.
+  unfold end_exact in Hex. apply andb_true_iff in Hex. destruct Hex as [Hex Hus].
+  unfold at_resolution in Hres. apply andb_true_iff in Hres. destruct Hres as [Hres RL].
+  apply andb_true_iff in Hres. destruct Hres as [Hres RS].
+  apply andb_true_iff in Hres. destruct Hres as [RH RM].
+  unfold complete, unit_above, sub_unit_fields in *.
+  set (sf := start_fields tp) in *. set (ef := end_fields tp) in *.
+  destruct (has FHour ef) eqn:EH.
+  - (* hour spelt: the unit is one day *)
+    cbn [forallb fval] in Hex. apply andb_true_iff in Hex. destruct Hex as [_ Hex].
+    apply andb_true_iff in Hex. destruct Hex as [XM Hex]. apply andb_true_iff in Hex. destruct Hex as [XS Hex].
+    apply andb_true_iff in Hex. destruct Hex as [XL _].
+    rewrite (pick_end _ _ _ _ XM RM), (pick_end _ _ _ _ XS RS), (pick_end_micro _ _ _ _ XL RL Hus).
+    rewrite mk_same_day; [|exact Vs|unfold valid_todb, us_second; clear - Re1 Re2 Re3 Re4; lia].
+    rewrite <- E1. reflexivity.
+  - destruct (has FMinute ef) eqn:EM.
+    + cbn [forallb fval] in Hex. apply andb_true_iff in Hex. destruct Hex as [_ Hex].
+      apply andb_true_iff in Hex. destruct Hex as [XS Hex]. apply andb_true_iff in Hex. destruct Hex as [XL _].
+      rewrite (pick_end _ _ _ _ XS RS), (pick_end_micro _ _ _ _ XL RL Hus).
+      rewrite mk_same_day; [|exact Vs|unfold valid_todb, us_second; clear - Rs1 Re2 Re3 Re4; lia].
+      f_equal. unfold tod_us. clear - S2 E3. unfold us_day, us_hour, us_minute, us_second in *. lia.
+    + cbn [orb] in Hco. rewrite Hco. cbn [forallb fval] in Hex. apply andb_true_iff in Hex. destruct Hex as [_ Hex].
+      apply andb_true_iff in Hex. destruct Hex as [XL _].
+      rewrite (pick_end_micro _ _ _ _ XL RL Hus).
+      rewrite mk_same_day; [|exact Vs|unfold valid_todb, us_second; clear - Rs1 Rs2 Re3 Re4; lia].
+      f_equal. unfold tod_us. clear - S2 S4 E5. unfold us_day, us_hour, us_minute, us_second in *. lia.
+Qed.
+
+Lemma unit_above_pos tp : 0 < unit_above tp.
+Proof. unfold unit_above. destruct (has FHour _); [reflexivity|]. destruct (has FMinute _); reflexivity. Qed.
+
+Theorem end_partial_exact_thm tp s e : start_ok tp s -> valid e -> end_partial tp = true ->
+  end_exact tp (fields e) = true -> 0 <= e - s < unit_above tp ->
+  exists r, complete tp (fields s) (fields e) = Some r /\ roll (unit_above tp) s r = e.
+Proof.
+  intros Hs Ve Hpart Hex Hd. eexists. split; [apply complete_exact; assumption|].
+  apply roll_exact; [apply unit_above_pos|exact Hd].
+Qed.
+
+Theorem roundtrip_end_partial_exact_thm c tp s e fill n :
+  start_ok tp s -> valid e -> 1000 <= year (fields e) -> end_partial tp = true ->
+  end_exact tp (fields e) = true -> 0 <= e - s < unit_above tp ->
+  deterministic fill tp = true -> info_via c = ViaFilename -> render tp s e fill = Ok n ->
+  exists attrs, attrs_are fill tp attrs /\ info c tp n = Ok (s, e, attrs).
+Proof.
+  intros Hs Ve Hye Hpart Hex Hd Hdet Hv Hr.
+  destruct (roundtrip_end_partial_thm c tp s e fill n Hs Ve Hye Hpart Hdet Hv Hr) as (r & attrs & Hc & Hat & Hi).
+  destruct (end_partial_exact_thm tp s e Hs Ve Hpart Hex Hd) as (r' & Hc' & Hroll).
+  rewrite Hc in Hc'. injection Hc' as <-. rewrite Hroll in Hi.
+  apply validb_iff in Ve. rewrite Ve in Hi. eauto.
+Qed.
+
+(* ---------- all three end kinds together *)
+Lemma year_mono s e : valid s -> valid e -> s <= e -> year (fields s) <= year (fields e).
+Proof.
+  intros Vs Ve H. pose proof (valid_day s Vs) as Ds.
+  assert (Hd : s / us_day <= e / us_day) by (apply Z.div_le_mono; [reflexivity|exact H]).
+  destruct (Z.eq_dec (s / us_day) (e / us_day)) as [E|N].
+  - unfold fields. rewrite E. destruct (civil_from_days _) as [[y m] d]. cbn. lia.
+  - pose proof (cfd_mono (s / us_day) (e / us_day) ltac:(lia)) as L. unfold fields.
+    destruct (civil_from_days (s / us_day)) as [[y m] d]. destruct (civil_from_days (e / us_day)) as [[y' m'] d'].
+    cbn. unfold lex_lt in L. lia.
+Qed.
+
+Lemma retrieve_partial_roll tp s e fill ps r : start_ok tp s -> valid e -> 1000 <= year (fields e) ->
+  end_partial tp = true -> complete tp (fields s) (fields e) = Some r ->
+  deterministic fill tp = true -> pieces (fields s) (fields e) fill tp = Ok ps ->
+  retrieve tp (first_only (binds_of ps)) =
+  if validb (roll (unit_above tp) s r) then Ok (Some s, Some (roll (unit_above tp) s r)) else Error EOverflow.
+Proof.
+  intros Hs Ve Hye Hpart Hc Hdet Hp. rewrite (retrieve_partial tp s e fill ps r Hs Ve Hye Hpart Hc Hdet Hp).
+  unfold add, roll. destruct (r <? s); [|rewrite Z.add_0_r]; destruct (validb _); reflexivity.
+Qed.
+
+Theorem roundtrip_end_partial_le_thm c tp s e fill n :
+  start_ok tp s -> valid e -> s <= e -> end_partial tp = true ->
+  deterministic fill tp = true -> info_via c = ViaFilename -> render tp s e fill = Ok n ->
+  exists r attrs, complete tp (fields s) (fields e) = Some r /\ attrs_are fill tp attrs /\
+    info c tp n = if validb (roll (unit_above tp) s r) then Ok (s, roll (unit_above tp) s r, attrs)
+                  else Error EOverflow.
+Proof.
+  intros Hs Ve Hse. pose proof Hs as (Vs & _ & Hrg & _).
+  apply roundtrip_end_partial_thm; try assumption.
+  pose proof (year_mono s e Vs Ve Hse). pose proof (in_range_1000 _ _ Hrg). lia.
+Qed.
+
+Theorem end_partial_exact_info_thm c tp s e fill n :
+  start_ok tp s -> valid e -> end_partial tp = true ->
+  end_exact tp (fields e) = true -> 0 <= e - s < unit_above tp ->
+  deterministic fill tp = true -> info_via c = ViaFilename -> render tp s e fill = Ok n ->
+  exists attrs, attrs_are fill tp attrs /\ info c tp n = Ok (s, e, attrs).
+Proof.
+  intros Hs Ve Hpart Hex Hd Hdet Hv Hr. pose proof Hs as (Vs & _ & Hrg & _).
+  apply roundtrip_end_partial_exact_thm; try assumption.
+  pose proof (year_mono s e Vs Ve ltac:(lia)). pose proof (in_range_1000 _ _ Hrg). lia.
+Qed.
+
+Theorem handler_overrides_partial_thm c tp s e fill n :
+  start_ok tp s -> valid e -> s <= e -> end_partial tp = true ->
+  deterministic fill tp = true -> info_via c = ViaBoth -> render tp s e fill = Ok n ->
+  exists r attrs, complete tp (fields s) (fields e) = Some r /\ attrs_are fill tp attrs /\
+    info c tp n = if validb (roll (unit_above tp) s r)
+                  then finish c (orelse (h_start c) (Some s)) (orelse (h_end c) (Some (roll (unit_above tp) s r)))
+                              (upd_attrs attrs (h_attr c))
+                  else Error EOverflow.
+Proof.
+  intros Hs Ve Hse Hpart Hdet Hv Hr. pose proof Hs as (Vs & _ & Hrg & _).
+  assert (Hye : 1000 <= year (fields e))
+    by (pose proof (year_mono s e Vs Ve Hse); pose proof (in_range_1000 _ _ Hrg); lia).
+  destruct (parse_render_thm tp s e fill n Vs Ve (in_range_1000 _ _ Hrg) Hye Hdet Hr) as (ps & Hp & -> & Hparse).
+  destruct (complete_some tp s e Vs Ve) as (r & Hc & Vr).
+  exists r, (user_attrs (first_only (binds_of ps))). split; [exact Hc|]. split; [apply (attrs_rendered _ _ _ _ _ Hdet Hp)|].
+  pose proof (retrieve_partial_roll tp s e fill ps r Hs Ve Hye Hpart Hc Hdet Hp) as Hret.
+  unfold info. rewrite Hv, Hparse. cbn [bind]. rewrite Hret.
+  destruct (validb _); reflexivity.
+Qed.
+
+(* the start is recovered for every end kind of the statement *)
+Theorem roundtrip_start_thm c tp s e fill n :
+  start_ok tp s -> valid e -> s <= e ->
+  (end_fields tp = [] /\ (forall d, coverage c = Some d -> valid (s + d)) \/
+   end_full tp = true /\ in_range (end_fields tp) (fields e) = true /\ at_resolution (end_fields tp) (fields e) = true
+     /\ no_parse_only (end_fields tp) = true \/
+   end_partial tp = true /\ (forall r, complete tp (fields s) (fields e) = Some r -> valid (roll (unit_above tp) s r))) ->
+  deterministic fill tp = true -> info_via c = ViaFilename -> render tp s e fill = Ok n ->
+  exists e' attrs, attrs_are fill tp attrs /\ info c tp n = Ok (s, e', attrs).
+Proof.
+  intros Hs Ve Hse Hend Hdet Hv Hr. pose proof Hs as (Vs & _ & Hrg & _).
+  assert (Hye : 1000 <= year (fields e))
+    by (pose proof (year_mono s e Vs Ve Hse); pose proof (in_range_1000 _ _ Hrg); lia).
+  destruct Hend as [(Hne & Hcov)|[(Hf & Hre & Ha & Hnp)|(Hpart & Hroll)]].
+  - destruct (no_end_fields_thm c tp s e fill n Hs Ve Hye Hne Hdet Hv Hr) as (attrs & Hat & Hi).
+    destruct (coverage c) as [d|] eqn:Ec.
+    + specialize (Hcov d eq_refl). apply validb_iff in Hcov. unfold add in Hi. rewrite Hcov in Hi. eauto.
+    + eauto.
+  - destruct (roundtrip_end_full_thm c tp s e fill n Hs Ve Hse Hf Hre Ha Hnp Hdet Hv Hr) as (attrs & Hat & Hi). eauto.
+  - destruct (roundtrip_end_partial_thm c tp s e fill n Hs Ve Hye Hpart Hdet Hv Hr) as (r & attrs & Hc & Hat & Hi).
+    specialize (Hroll r Hc). apply validb_iff in Hroll. rewrite Hroll in Hi. eauto.
+Qed.
+
+(* parse_filename raises its ValueError exactly on the names that are no instance of the template *)
+Theorem rejected_iff_thm tp n : existsb unknown_tok tp = false ->
+  (parse tp n = Error ENoMatch <-> forall b, ~ is_instance tp b n).
+Proof.
+  intros Hu. split.
+  - intros Hp b Hi. destruct (parse_complete_thm tp b n Hu Hi) as [d Hd]. congruence.
+  - intros Hno. apply (non_instance_rejected_thm (Cfg ViaFilename None None None []) tp n Hu Hno).
+Qed.
+
+(* the certificate the harness evaluates per accepted name is a proof of is_instance *)
+Theorem run_instance_sound tp b ws n : fst (run_instance tp b ws n) = true ->
+  is_instance tp (map (fun kv => (fst kv, s2l (snd kv))) b) (s2l n).
+Proof.
+  unfold run_instance. cbn [fst]. destruct (assemble tp _ (map s2l ws)) as [n0|] eqn:E; [|discriminate].
+  intros H. exists (map s2l ws), n0. split; [exact E|]. apply orb_true_iff in H.
+  destruct H as [H|H]; apply str_eqb_eq in H; [left|right]; exact H.
+Qed.
